@@ -53,8 +53,8 @@ TRUSTED = ['translator tools/extract/interp.py (AST of the edge/weight helpers, 
 ASSUMPTIONS = ['floating-point rounding is outside the model: on the exact stream all inputs are '
                'few-bit dyadic rationals with points placed at dyadic fractions of a cell, so every '
                'operation on the path is exact and outputs are compared exactly; on the decimal / '
-               'non-power-of-two streams outputs agree within 1e-9*scale+1e-12 (float64) / 1e-4 '
-               'relative (float32) and no point is placed near a branch point except exactly on it',
+               'non-power-of-two streams outputs agree within 1e-9*scale+1e-12 (float64) / 2^-19*scale '
+               '(float32, ~8 ulp) and no point is placed near a branch point except exactly on it',
                'coordinate vectors strictly increasing with at least two nodes per axis in the model '
                'and the theorems; a single-node axis (linear interpolation gives nan at the node) is '
                'exercised on the real code only and recorded as open finding C15-F6',
@@ -215,8 +215,10 @@ def gen_values(rng, size, dtype, distinct):
         rng.shuffle(pool)
         # distinct as long as the alphabet lasts, then cyclic (neighbours still differ)
         return [pool[k % len(pool)] for k in range(size)]
-    if dtype.startswith('int'):
+    if dtype.startswith(('int', 'uint')):
         ks = rng.sample(range(-60, 61), size) if distinct else [rng.randint(-9, 9) for _ in range(size)]
+        if dtype.startswith('uint'):
+            ks = [k + 60 for k in ks]
         return [str(k) for k in ks]
     if distinct:
         ks = rng.sample(range(-64, 65), size)
@@ -234,7 +236,7 @@ def values_array(case):
     toks = case['vals']
     if dt.startswith('U'):
         return np.array(toks, dtype=dt).reshape(dims)
-    if dt.startswith('int'):
+    if dt.startswith(('int', 'uint')):
         return np.array([int(t) for t in toks], dtype=dt).reshape(dims)
     pairs = [parse_c(t) for t in toks]
     if dt.startswith('complex'):
@@ -247,7 +249,7 @@ def values_array(case):
 def value_token(z, dtype):
     if dtype.startswith('U'):
         return str(z)
-    if dtype.startswith('int'):
+    if dtype.startswith(('int', 'uint')):
         return str(int(z))
     p = num_pair(z)
     return 'nonfinite' if p is None else ctok(p)
@@ -261,7 +263,7 @@ def interp_configs(ctx):
     sch_all = {d: [''.join(t) for t in itertools.product('ln', repeat=d)] for d in (1, 2, 3)}
     kinds = ['uniform', 'pow2', 'dyadic', 'decimal']
     num_dt = ['float64', 'float32', 'complex128', 'complex64']
-    near_dt = num_dt + ['int64', 'int32', 'U1', 'U3']
+    near_dt = num_dt + ['int64', 'int32', 'uint8', 'U1', 'U3']
     reps = 2 if quick else 10
     for rep in range(reps):
         for d in (1, 2, 3):
@@ -291,6 +293,11 @@ def interp_configs(ctx):
                     continue
                 cfgs.append(dict(api='peraxis', sch='n' * d, ckinds=[rng.choice(kinds) for _ in range(d)],
                                  dtype=dt))
+    # integer / string data with a linear axis: the code raises (weighted sums in the value
+    # dtype), the model's dispatch answers err:type — outside the property, inside the tie
+    for api, sch, dt in (('linear', 'l', 'int64'), ('peraxis', 'ln', 'int32'), ('peraxis', 'nl', 'U3'),
+                         ('linear', 'll', 'uint8')):
+        cfgs.append(dict(api=api, sch=sch, ckinds=[rng.choice(kinds[:3]) for _ in sch], dtype=dt))
     # float32 / complex64 (and, for contrast, float64) data on grids far from the origin: the
     # evaluation points must not lose precision on their way to the node search
     for rep in range(2 if quick else 8):
@@ -459,7 +466,7 @@ def eval_conventions(case, f=None):
     def garbage(shp):
         if case['dtype'].startswith('U'):
             return np.full(shp, 'zz', dtype=f.dtype)
-        if case['dtype'].startswith('int'):
+        if case['dtype'].startswith(('int', 'uint')):
             return np.full(shp, -77, dtype=f.dtype)
         return np.full(shp, np.nan, dtype=f.dtype)
 
@@ -513,10 +520,11 @@ def eval_conventions(case, f=None):
 def model_lines(case, convs):
     d = len(case['coords'])
     dims = [len(c) for c in case['coords']]
-    # per_axis_interpolator dispatches to _NearestInterpolator when every axis is 'nearest'
-    # (theorem nearest_paths_agree: same values); needed for integer / string data
-    kind = 'nearest' if (case['api'] == 'nearest' or
-                         (set(case['sch']) == {'n'} and case['dtype'].startswith(('U', 'int')))) else 'peraxis'
+    # only nearest_interpolator is sent as kind=nearest; per_axis_interpolator / linear_interpolator
+    # go through the model's own dispatch (`perAxisInterpolator` / `allNearest`), which decides
+    # between the index rule and the weighted corner loop; vt=tok marks non-numeric values
+    kind = 'nearest' if case['api'] == 'nearest' else \
+        ('peraxis vt=tok' if case['dtype'].startswith(('U', 'int', 'uint')) else 'peraxis')
     head = 'interp kind={} sch={} dims={} c={} v={}'.format(
         kind, ','.join(case['sch']), ','.join(str(n) for n in dims),
         ';'.join(','.join(fs(pfr(x)) for x in c) for c in case['coords']),
@@ -542,7 +550,8 @@ def tol_for(case, scale):
         # a handful of single-precision roundings of the accumulated VALUE, nothing else
         return Fr(1, 2 ** 19) * scale
     if case['dtype'] in ('float32', 'complex64'):
-        return Fr(1, 10000) * scale + Fr(1, 10 ** 6)
+        # at most 2^d single-precision roundings of the accumulated value (about 8 ulp)
+        return Fr(1, 2 ** 19) * scale + Fr(1, 10 ** 7)
     return Fr(1, 10 ** 9) * scale + Fr(1, 10 ** 12)
 
 
@@ -605,7 +614,7 @@ def check_interp_case(ctx, case, results, model_out):
     """oracle on the real results + correspondence with the model answers"""
     coords = [[pfr(x) for x in c] for c in case['coords']]
     dims = [len(c) for c in coords]
-    numeric = not (case['dtype'].startswith('U') or case['dtype'].startswith('int'))
+    numeric = not (case['dtype'].startswith('U') or case['dtype'].startswith(('int', 'uint')))
     ptsF = case_points(case)
     if numeric:
         vals = [parse_c(t) for t in case['vals']]
@@ -623,8 +632,10 @@ def check_interp_case(ctx, case, results, model_out):
     # expected by the textbook reference
     expected = []
     for pt in ptsF:
-        if case['api'] == 'nearest' or not numeric:
-            # (non-numeric values only occur with every axis 'nearest': no arithmetic involved)
+        if (not numeric) and case['api'] != 'nearest' and 'l' in case['sch']:
+            expected.append(None)      # outside the property (see type_error_expected below)
+        elif case['api'] == 'nearest' or not numeric:
+            # (non-numeric values with every axis 'nearest': no arithmetic involved)
             expected.append(case['vals'][ref_nearest_index(coords, pt, dims)])
         else:
             expected.append(ref_interp(coords, case['sch'], vals, dims, pt))
@@ -641,7 +652,12 @@ def check_interp_case(ctx, case, results, model_out):
         if conv.startswith('mesh') and mesh_lens(case) and not mesh_input_ok(mesh_lens(case)):
             ctx.hit('mesh/one-point-first-axis')
         rc = dict(desc_of(case), conv=conv)
-        if status != 'ok':
+        type_error_expected = (not numeric) and case['api'] != 'nearest' and 'l' in case['sch']
+        if status != 'ok' and type_error_expected and status.startswith('err:UFuncTypeError'):
+            # weighted sums of integer / string values: outside the property (linear needs
+            # arithmetic in the value dtype); the model answers err:type (compared below)
+            ctx.hit('nonnumeric-linear/type-error')
+        elif status != 'ok':
             exc = status.split(':')[1]
             lens = mesh_lens(case)
             if conv.startswith('mesh') and lens and not mesh_input_ok(lens) and \
@@ -679,7 +695,9 @@ def check_interp_case(ctx, case, results, model_out):
         if mo is None:
             continue
         if any(not a.startswith('ok r=') for a in mo):
-            ctx.disagree(rc, status, [a for a in mo if not a.startswith('ok r=')][0])
+            bad_ans = [a for a in mo if not a.startswith('ok r=')][0]
+            if not (bad_ans == 'err:type' and status.startswith('err:UFuncTypeError')):
+                ctx.disagree(rc, status, bad_ans)
             continue
         mt = []
         for a in mo:
@@ -725,7 +743,7 @@ def check_interp_case(ctx, case, results, model_out):
 def affine_check(ctx, case):
     """ORACLE: affine data a + sum b_j c_j on linear axes (constant along nearest axes) is
     reproduced exactly at every point inside the hull, node values are reproduced at nodes."""
-    if case['api'] == 'nearest' or case['dtype'].startswith(('U', 'int')):
+    if case['api'] == 'nearest' or case['dtype'].startswith(('U', 'int', 'uint')):
         return
     rnd = random.Random(case['aseed'])
     coords = [[pfr(x) for x in c] for c in case['coords']]
@@ -823,11 +841,13 @@ def dyadic(fr):
     return d & (d - 1) == 0
 
 
-def gen_space_pair(rng, d, dtype, nonuniform):
+def gen_space_pair(rng, d, dtype, nonuniform, sch=None):
     """domain (coarse/fine, possibly non-uniform) and a uniform range space on the same set"""
     mins, maxs, shape_d, shape_r, coords = [], [], [], [], []
     for j in range(d):
         n = rng.choice([2, 3, 4, 5] if d < 3 else [2, 3])
+        if sch and sch[j] == 'n' and not nonuniform and rng.random() < 0.25:
+            n = 1      # single-cell axis, e.g. uniform_discr(.., (n, 1)); nearest works there
         h = Fr(rng.choice([1, 2, 4, 8]), 4)
         a = Fr(rng.randint(-4, 4), 2)
         if nonuniform:
@@ -866,7 +886,7 @@ def op_configs(ctx):
             for si, sch in enumerate(schs):
                 for nonuni in (False, True):
                     dt = num_dt[(si + rep + d + nonuni) % 4]
-                    dom, ran = gen_space_pair(rng, d, dt, nonuni)
+                    dom, ran = gen_space_pair(rng, d, dt, nonuni, sch)
                     size = 1
                     for n in dom['shape']:
                         size *= n
@@ -874,7 +894,7 @@ def op_configs(ctx):
                                     vals=gen_values(rng, size, dt, distinct=False),
                                     single_string=(rng.random() < 0.5), aseed=rng.getrandbits(30)))
                 if set(sch) == {'n'}:
-                    dom, ran = gen_space_pair(rng, d, 'int64', False)
+                    dom, ran = gen_space_pair(rng, d, 'int64', False, sch)
                     size = 1
                     for n in dom['shape']:
                         size *= n
@@ -883,7 +903,7 @@ def op_configs(ctx):
                                     single_string=(rng.random() < 0.5), aseed=rng.getrandbits(30)))
                 # linear_deform on a uniform template space
                 dt = num_dt[(si + rep) % 2 * 1]  # real templates (float64 / float32)
-                dom, _ = gen_space_pair(rng, d, dt, False)
+                dom, _ = gen_space_pair(rng, d, dt, False, sch)
                 size = 1
                 for n in dom['shape']:
                     size *= n
@@ -934,7 +954,7 @@ def eval_op_case(case):
         guard('mesh', lambda: op(x).asarray())
 
         def with_out():
-            y = ran.element(np.full(ran.shape, -77 if case['dtype'].startswith('int') else np.nan))
+            y = ran.element(np.full(ran.shape, -77 if case['dtype'].startswith(('int', 'uint')) else np.nan))
             try:
                 r = op(x, out=y)
             except ValueError as e:
@@ -973,7 +993,7 @@ def eval_op_case(case):
 
 def op_model_line(case):
     dims = [len(c) for c in case['coords']]
-    kind = 'nearest' if (set(case['sch']) == {'n'} and case['dtype'].startswith(('U', 'int'))) else 'peraxis'
+    kind = 'peraxis vt=tok' if case['dtype'].startswith(('U', 'int', 'uint')) else 'peraxis'
     head = 'interp kind={} sch={} dims={} c={} v={}'.format(
         kind, ','.join(case['sch']), ','.join(str(n) for n in dims),
         ';'.join(','.join(fs(pfr(x)) for x in c) for c in case['coords']), ','.join(case['vals']))
@@ -994,11 +1014,16 @@ def run_ops(ctx, cases, with_model=True):
                 case['api'], case['sch'], case['dtype']), results['setup'][0], desc_of(case))
             continue
         conv, line = op_model_line(case)
+        if min(len(c) for c in case['coords']) < 2:
+            # single-node axis: outside the model (n >= 2), reference oracle only
+            ctx.hit('ops/single-node-axis')
+            batch.append((case, results, conv, None))
+            continue
         batch.append((case, results, conv, len(lines)))
         lines.append(line)
     outs = core.run_driver('C15', lines) if with_model else None
     for case, results, conv, k in batch:
-        check_interp_case(ctx, case, results, {conv: [outs[k]]} if outs else {})
+        check_interp_case(ctx, case, results, {conv: [outs[k]]} if (outs and k is not None) else {})
         if case.get('inplace_protocol'):
             limited_violation(ctx, 'resampling-inplace',
                               'Resampling(domain, range, interp)(x, out=y) :: in-place call protocol, '
@@ -1010,7 +1035,7 @@ def run_ops(ctx, cases, with_model=True):
 # value dtypes: the cast of the evaluation points to the value dtype in _find_indices
 
 VKINDS = [('float64', 'float64'), ('float32', 'float32'), ('complex128', 'complex128'),
-          ('complex64', 'complex64'), ('int64', 'int'), ('int8', 'int'), ('U1', 'strNarrow'),
+          ('complex64', 'complex64'), ('int64', 'int'), ('int8', 'int'), ('uint8', 'int'), ('U1', 'strNarrow'),
           ('U31', 'strNarrow'), ('U32', 'strWide'), ('U40', 'strWide'), ('object', 'object')]
 
 
@@ -1029,8 +1054,8 @@ def run_dtype_table(ctx, with_model=True):
         elif dt == 'object':
             vals = ['a', 'bb', 'c', 'dd']
             f = np.array(vals, dtype=object)
-        elif dt.startswith('int'):
-            vals = ['3', '-5', '7', '11']
+        elif dt.startswith(('int', 'uint')):
+            vals = ['3', '5', '7', '11'] if dt.startswith('uint') else ['3', '-5', '7', '11']
             f = np.array([int(t) for t in vals], dtype=dt)
         else:
             vals = ['3/8', '-5/8', '7/4', '11/2']
@@ -1046,7 +1071,20 @@ def run_dtype_table(ctx, with_model=True):
             status = 'ok'
         except Exception as e:  # noqa
             status, toks = 'err:{}:{}'.format(type(e).__name__, str(e)[:100]), None
-        can = bool(np.can_cast(np.float64, np.dtype(dt), 'safe'))
+        # the hand-written NumPy tables of the model, each against NumPy itself
+        npdt = np.dtype(dt)
+        can = bool(np.can_cast(np.float64, npdt, 'safe'))
+        same = bool(np.can_cast(np.float64, npdt, 'same_kind'))
+        numeric = bool(np.issubdtype(npdt, np.number))
+        probe = 1.0 + 2.0 ** -30                      # not representable in single precision
+        try:
+            with warnings.catch_warnings():
+                warnings.simplefilter('ignore')
+                back = np.asarray([probe]).astype(npdt)
+                lossless = (not dt.startswith('U')) and \
+                    bool(np.all(back.astype(np.complex128) == np.complex128(probe)))
+        except Exception:  # noqa
+            lossless = False
         exp = [vals[ref_nearest_index([c], (p,), [4])] for p in pts]
         sig = ('dtype-table', dt)
         ctx.case(sig, None)
@@ -1056,15 +1094,15 @@ def run_dtype_table(ctx, with_model=True):
             ctx.violation('nearest_interpolator value dtype={} class={} float points :: closest-node rule'.format(dt, vk),
                           'expected {} got {}'.format(exp, status if status != 'ok' else toks), case)
         lines.append('cast vk={}'.format(vk))
-        batch.append((case, status, can, warned))
+        batch.append((case, status, (can, same, numeric, lossless), warned))
     if not with_model:
         return
     outs = core.run_driver('C15', lines)
-    for (case, status, can, warned), ans in zip(batch, outs):
-        # model answer: `ok safe=0|1 cast=0|1 outcome=ok|err:type`; the code falls back to float
-        # (and warns) exactly when the points do not take the value dtype
-        impl = 'ok safe={} cast={} outcome={}'.format(
-            int(can), '?' if warned is None else int(not warned), 'ok' if status == 'ok' else 'err:type')
+    for (case, status, (can, same, numeric, lossless), warned), ans in zip(batch, outs):
+        # the code falls back to float (and warns) exactly when the points do not take the value dtype
+        impl = 'ok safe={} samekind={} numeric={} lossless={} cast={} outcome={}'.format(
+            int(can), int(same), int(numeric), int(lossless), '?' if warned is None else int(not warned),
+            'ok' if status == 'ok' else 'err:type')
         if ans != impl:
             ctx.disagree(case, impl + ' (' + status[:80] + ')', ans)
 
@@ -1772,12 +1810,44 @@ def run_single_node_axis(ctx):
                         du.per_axis_interpolator(f, cv, 'nearest') if api == 'peraxis-nearest' else \
                         du.linear_interpolator(f, cv)
                     r = itp(node[0] if d == 1 else node)
+                    beside = [t + 0.25 for t in node]
+                    rb = itp(beside[0] if d == 1 else beside)
                 tok = value_token(r, 'float64')
                 if tok != exp:
                     ctx.violation(key + 'node value not reproduced', 'at the node {} expected {} got {}'.format(
                         node, exp, tok), rc)
+                tokb = value_token(rb, 'float64')
+                if api != 'linear' and tokb != exp:
+                    ctx.violation(key + 'closest-node rule beside the node', 'at {} expected {} got {}'.format(
+                        beside, exp, tokb), rc)
+                if api == 'linear' and tokb == 'nonfinite':
+                    ctx.violation(key + 'non-finite result beside the node', 'at {} got {}'.format(
+                        beside, rb), rc)
             except Exception as ex:  # noqa
                 ctx.violation(key + 'raised', '{}: {}'.format(type(ex).__name__, str(ex)[:200]), rc)
+    # the same through Resampling from a single-cell space
+    import odl
+    for interp in ('nearest', 'linear'):
+        rc = dict(kind='single-node', api='resampling-' + interp)
+        key = 'Resampling from a single-cell domain interp={} :: '.format(interp)
+        ctx.case(('single-node', 'resampling', interp), None)
+        ctx.hit('single-node/resampling-' + interp)
+        try:
+            with warnings.catch_warnings():
+                warnings.simplefilter('ignore')
+                dom, ran = odl.uniform_discr(0, 1, 1), odl.uniform_discr(0, 1, 1)
+                y = odl.Resampling(dom, ran, interp)(dom.element([3.0])).asarray()
+                y2 = odl.Resampling(dom, odl.uniform_discr(0, 1, 2), interp)(dom.element([3.0])).asarray()
+            tok = value_token(y[0], 'float64')
+            if tok != '3':
+                ctx.violation(key + 'node value not reproduced', 'expected 3 got {}'.format(tok), rc)
+            toks2 = [value_token(t, 'float64') for t in y2]
+            if interp == 'nearest' and toks2 != ['3', '3']:
+                ctx.violation(key + 'closest-node rule beside the node', 'expected [3, 3] got {}'.format(toks2), rc)
+            if interp == 'linear' and 'nonfinite' in toks2:
+                ctx.violation(key + 'non-finite result beside the node', str(y2), rc)
+        except Exception as ex:  # noqa
+            ctx.violation(key + 'raised', '{}: {}'.format(type(ex).__name__, str(ex)[:200]), rc)
 
 
 def run_sampling(ctx):
@@ -1794,7 +1864,8 @@ def run_sampling(ctx):
 
 MODEL_BRANCHES = ['axis/{}/{}'.format(s_, b) for s_ in 'ln' for b in ('lo', 'hi', 'node', 'tie', 'in<', 'in>')] + \
     ['conv/{}/{}'.format(a, c) for a in ('nearest', 'linear', 'peraxis') for c in ('point', 'array', 'mesh')] + \
-    ['conv/resampling/mesh', 'conv/deform/array', 'mesh/one-point-first-axis'] + \
+    ['conv/resampling/mesh', 'conv/deform/array', 'mesh/one-point-first-axis', 'nonnumeric-linear/type-error',
+     'ops/single-node-axis'] + \
     ['dtype/' + vk for vk in sorted(set(v for _, v in VKINDS))] + \
     ['dispatch/{}/{}'.format(k, o) for k in ('plain', 'optional', 'required') for o in ('out', 'noout')] + \
     ['input/accepted', 'input/rejected']
